@@ -7,6 +7,8 @@ import (
 	"sort"
 	"strings"
 
+	"verif/echecks/npipes"
+	"verif/echecks/pipes"
 	"verif/sched"
 	"verif/vlib"
 
@@ -161,6 +163,58 @@ func signature(report string) (sig string, murex bool, detail string) {
 	return strings.Join(tops, " <-> "), murex, vlib.Clip(report, 1800)
 }
 
+// object-level drivers of C01/C02/C26 run under the race detector as well (preemption bound 1)
+func objectLevel(c *vlib.Ctx, seen map[string]bool) {
+	scs := append(pipes.RaceScenarios(), npipes.RaceScenarios()...)
+	if c.Quick() {
+		// quick tier: the data-type drivers, four byte-stream drivers and the registry pairs of one
+		// operation per thread
+		var q []*sched.Scenario
+		n01 := 0
+		for _, sc := range scs {
+			switch {
+			case strings.HasPrefix(sc.Name, "set="):
+				q = append(q, sc)
+			case strings.HasPrefix(sc.Name, "w="):
+				if n01 < 4 {
+					q = append(q, sc)
+				}
+				n01++
+			case !strings.Contains(sc.Name, ";"):
+				q = append(q, sc)
+			}
+		}
+		scs = q
+	}
+	for i, sc := range scs {
+		if !c.Mine(uint64(i)) {
+			continue
+		}
+		sc := sc
+		x := &sched.Explorer{C: c, Sc: sc, Bound: 1, Whole: true}
+		x.After = func(schedule string) {
+			for _, r := range newRaceReports() {
+				sig, murex, detail := signature(r)
+				if !murex {
+					c.Extra("harness-only race reports ignored", 1)
+					continue
+				}
+				if seen[sig] {
+					continue
+				}
+				seen[sig] = true
+				c.Violation("no-data-race", sig, fmt.Sprintf("object-level driver %q schedule %s\n%s", sc.Name, schedule, detail))
+			}
+		}
+		if !x.Explore() {
+			c.Note("driver %s: deadline reached", sc.Name)
+			return
+		}
+		c.P.States += x.St.Execs
+		c.Extra("object-level executions", x.St.Execs)
+	}
+}
+
 func runC32(c *vlib.Ctx, progs []c32Prog, bound int) {
 	Init(c.WorkDir)
 	if raceLogPath() == "" {
@@ -181,6 +235,7 @@ func runC32(c *vlib.Ctx, progs []c32Prog, bound int) {
 	}
 	c.Extra("canary-reported", 1)
 	seen := map[string]bool{}
+	objectLevel(c, seen)
 	for i, p := range progs {
 		if !c.Mine(uint64(i)) {
 			continue
@@ -214,7 +269,7 @@ func init() {
 		ID: "C32", Engine: "E1",
 		Rule: "each listed program (sequential pipelines/functions plus concurrent vocabulary: bg, foreach --parallel, named pipes, two sessions sharing globals/config/functions/pipes) is executed by the real interpreter, built with the Go race detector, under the controlled scheduler whose hand-offs are invisible to the detector; ALL schedules with at most B deviations from the default schedule are enumerated and the detector's log is read after every execution; a report counts when at least one of the two accesses is made by murex code; distinct races are keyed by the unordered pair of innermost murex functions; non-trivial = schedules with at least one deviation; a built-in canary race must be reported or the check exits 2",
 		Run: func(c *vlib.Ctx) {
-			progs, b := c32Programs[4:], 1 // quick: the concurrent vocabulary
+			progs, b := c32Programs[4:9], 1 // quick: the core of the concurrent vocabulary
 			if !c.Quick() {
 				progs, b = append(append([]c32Prog{}, c32Programs...), c32More...), 2
 			}
